@@ -215,7 +215,7 @@ func peerRun() (res peerResult) {
 		}
 		return pn
 	}
-	sizes := []int{0, 1, 3, 5}
+	sizes := []int{0, 1, 3, 5, 12}
 	batches := []int{1, 2, 10}
 	// ---- pull: HttpDatasetSource -> DatasetSink
 	for _, jt := range []string{"incremental", "fullsync"} {
